@@ -681,27 +681,48 @@ func (e *zzC08Env) statsDB() (s *zzC08Stats, err error) {
 // updateClient sets the two ignore flags of the persistent client through the
 // POST /control/clients/update handler.
 func (e *zzC08Env) updateClient(ids []string, flagQ, flagS bool) (err error) {
-	body, err := json.Marshal(map[string]any{
-		"name": zzC08ClientName,
-		"data": map[string]any{
-			"name":                        zzC08ClientName,
-			"ids":                         ids,
-			"use_global_settings":         true,
-			"use_global_blocked_services": true,
-			"ignore_querylog":             flagQ,
-			"ignore_statistics":           flagS,
-		},
-	})
+	return e.clientCall("upd", zzC08ClientName, ids, flagQ, flagS)
+}
+
+// clientCall makes one call of the persistent-client registry API: op is
+// "add" (POST /control/clients/add), "del" (.../delete) or "upd" (.../update,
+// re-submitting the client's data).
+func (e *zzC08Env) clientCall(op, name string, ids []string, flagQ, flagS bool) (err error) {
+	data := map[string]any{
+		"name":                        name,
+		"ids":                         ids,
+		"use_global_settings":         true,
+		"use_global_blocked_services": true,
+		"ignore_querylog":             flagQ,
+		"ignore_statistics":           flagS,
+	}
+
+	var body []byte
+	var h http.HandlerFunc
+	switch op {
+	case "add":
+		body, err = json.Marshal(data)
+		h = e.clients.handleAddClient
+	case "del":
+		body, err = json.Marshal(map[string]any{"name": name})
+		h = e.clients.handleDelClient
+	case "upd":
+		body, err = json.Marshal(map[string]any{"name": name, "data": data})
+		h = e.clients.handleUpdateClient
+	default:
+		return fmt.Errorf("bad client op %q", op)
+	}
+
 	if err != nil {
 		return err
 	}
 
-	r := httptest.NewRequest(http.MethodPost, "/control/clients/update", bytes.NewReader(body))
+	r := httptest.NewRequest(http.MethodPost, "/control/clients/"+op, bytes.NewReader(body))
 	r.Header.Set("Content-Type", "application/json")
 	w := httptest.NewRecorder()
-	e.clients.handleUpdateClient(w, r)
+	h(w, r)
 	if w.Code != http.StatusOK {
-		return fmt.Errorf("clients/update: %d %s", w.Code, strings.TrimSpace(w.Body.String()))
+		return fmt.Errorf("clients %s %s: %d %s", op, name, w.Code, strings.TrimSpace(w.Body.String()))
 	}
 
 	return nil
@@ -782,6 +803,22 @@ type zzC08Cfg struct {
 	QlogOn    bool        `json:"qlogOn"`
 	StatsOn   bool        `json:"statsOn"`
 	RefuseAny bool        `json:"refuseAny"`
+	// Extra are further persistent clients with flags of their own.
+	Extra []zzC08Extra `json:"extra"`
+}
+
+// zzC08Extra is an extra persistent client.
+type zzC08Extra struct {
+	ID    zzC08Client `json:"id"`
+	FlagQ bool        `json:"flagQ"`
+	FlagS bool        `json:"flagS"`
+}
+
+// zzC08RegOp is one call of the client registry API made before the queries.
+type zzC08RegOp struct {
+	Op  string     `json:"op"`
+	Who string     `json:"who"`
+	C   zzC08Extra `json:"c"`
 }
 
 // zzC08Layout says how an abstract bit vector is embedded into real
@@ -1157,6 +1194,8 @@ type zzC08Script struct {
 	Par  struct {
 		Ep string `json:"ep"`
 	} `json:"par"`
+	// Hist is the history of registry calls.
+	Hist []zzC08RegOp `json:"hist"`
 	// K are the four configurations K0..K3.
 	K   [4]zzC08Cfg `json:"k"`
 	Log []zzC08TV   `json:"log"`
@@ -1610,6 +1649,14 @@ func zzC08RunScript(u *zzC08Univ, sc *zzC08Script, seed int64, work string) (res
 
 	b1, b12 := batches[0], append(append([]*zzC08Q{}, batches[0]...), batches[1]...)
 
+	// The history of the client registry.
+	for i, op := range sc.Hist {
+		xids, _ := lay.clientIDs(op.C.ID)
+		if err = e.clientCall(op.Op, "zzc08-extra-"+op.Who, xids, op.C.FlagQ, op.C.FlagS); err != nil {
+			return fail(fmt.Sprintf("registry call %d", i), err)
+		}
+	}
+
 	// Round 1 (+ ANY probes) under K0.
 	sendAll(batches[0])
 	if err = api("api0", tLog, b1, rounds(1, 4), 0); err != nil {
@@ -1941,7 +1988,7 @@ func zzC08TraceInstance(idx int, seed int64, work string) (lines []map[string]an
 
 	cfg := zzC08Cfg{
 		IgnQ: randList(), IgnS: randList(), Anon: rng.Intn(2) == 0, RefuseAny: rng.Intn(2) == 0,
-		QlogOn: true, StatsOn: true,
+		QlogOn: true, StatsOn: true, Extra: []zzC08Extra{},
 	}
 	switch rng.Intn(6) {
 	case 0:
